@@ -23,7 +23,7 @@ func init() { register(c09{}) }
 func (c09) Meta() core.Meta {
 	return core.Meta{
 		ID: "C09", Level: "exploration",
-		Rule: "case i = f(seed,i): XML/JSON-shaped Map (attribute-prefixed and text-key entries with scalar values, nulls, lists of maps/scalars, leaves under 2-3 list levels separated by keys, no list directly in a list; in 1/4 of the cases arbitrary keys including \"\", \".\", \"a.b\", \"[0]\", \"*\") x {attr prefix - @ attr_ empty} x {key prefix # %} x no-attributes {absent,false,true} x dot-notation. Monitors: multiset of (path,value) from LeafNodes == independent walker (exactly once); LeafPaths/LeafValues == projections for the same option; no-attributes == leaves of the Map with attribute entries removed and the text-key segment dropped; for clean keys every [N]-form path resolves through ValuesForPath to exactly [value]; j2x.JsonLeafNodes agrees. Non-trivial: >=3 leaves and a list level; distinct by hash(map, options).",
+		Rule:        "case i = f(seed,i): XML/JSON-shaped Map (attribute-prefixed and text-key entries with scalar values, nulls, lists of maps/scalars, leaves under 2-3 list levels separated by keys, no list directly in a list; in 1/4 of the cases arbitrary keys including \"\", \".\", \"a.b\", \"[0]\", \"*\") x {attr prefix - @ attr_ empty} x {key prefix # %} x no-attributes {absent,false,true} x dot-notation. Monitors: multiset of (path,value) from LeafNodes == independent walker (exactly once); LeafPaths/LeafValues == projections for the same option; no-attributes == leaves of the Map with attribute entries removed and the text-key segment dropped; for clean keys every [N]-form path resolves through ValuesForPath to exactly [value]; j2x.JsonLeafNodes agrees. Non-trivial: >=3 leaves and a list level; distinct by hash(map, options).",
 		Assumptions: []string{"independent walker written from the LeafNodes documentation", "path text is compared only for Maps whose keys are free of . [ * and non-empty (the docs do not define how other keys are written in a path); values and counts are compared always"},
 		Anchors:     []string{"Map.LeafNodes", "getLeafNodes", "Map.LeafPaths", "Map.LeafValues", "LeafUseDotNotation", "j2x.JsonLeafNodes", "valuesForArray"},
 		Floors:      map[string]int64{"resolution:paths": 20000, "noattr:removed-something": 500, "dotnotation": 500, "arbitrary-keys": 1000, "leaf-under-2-lists": 300, "emptykey-below-root": 100, "list>=11-members": 300},
@@ -37,7 +37,7 @@ func (c09) Cases(tier string, race bool) int {
 	if tier == "thorough" {
 		return 2000000
 	}
-	return 60000
+	return 150000
 }
 
 type leafT struct {
